@@ -249,6 +249,48 @@ def run_rules(prop, facts, tier, config='default'):
     return cx, mod
 
 
+def self_test(prop, repo):
+    """Thorough tier: apply every catalogued seeded variant / mutant that this property's rule set is expected to report
+    to a scratch copy of the tree under test and confirm that the check still reports it. A miss is a checker weakness,
+    recorded in the evidence; it is not a violation of the property."""
+    from concurrent.futures import ThreadPoolExecutor
+    cat_path = os.path.join(VERIF, 'mutants', 'CATALOG.json')
+    if not os.path.exists(cat_path):
+        return {}
+    cat = json.load(open(cat_path))
+    mine = sorted(k for k, v in cat.items() if prop in v)
+
+    def one(rel):
+        patch = os.path.join(VERIF, rel)
+        tmp = tempfile.mkdtemp(prefix='acverif-self-')
+        try:
+            for f in ('Cargo.toml', 'Cargo.lock', 'README.md'):
+                if os.path.exists(os.path.join(repo, f)):
+                    shutil.copy(os.path.join(repo, f), tmp)
+            shutil.copytree(os.path.join(repo, 'src'), os.path.join(tmp, 'src'))
+            r = subprocess.run(['patch', '-p1', '-s', '-f', '-d', tmp, '-i', patch], capture_output=True, text=True)
+            if r.returncode != 0:
+                return rel, 'skipped (patch does not apply to this tree)'
+            r = subprocess.run([os.path.join(VERIF, 'check'), prop, '--repo', tmp, '--no-evidence', '--tier', 'quick'], capture_output=True, text=True)
+            if r.returncode == 1:
+                keys = [l.split()[1] for l in r.stdout.splitlines() if l.startswith('violation: ')]
+                return rel, 'reported: ' + ', '.join(k.split('/', 1)[1] for k in keys[:3])
+            if r.returncode == 0:
+                return rel, 'MISSED'
+            return rel, 'skipped (variant does not compile on this tree)'
+        finally:
+            shutil.rmtree(tmp, ignore_errors=True)
+    with ThreadPoolExecutor(max_workers=8) as ex:
+        res = list(ex.map(one, mine))
+    rep = [r for r in res if r[1].startswith('reported')]
+    miss = [r for r in res if r[1] == 'MISSED']
+    skip = [r for r in res if r[1].startswith('skipped')]
+    for rel, what in miss:
+        print('self-test: catalogued variant %s is NOT reported any more (checker weakness, not a property violation)' % rel)
+    return {'self_test': {'variants_tried': len(res), 'reported': len(rep), 'missed': [r[0] for r in miss], 'skipped': [r[0] for r in skip],
+                          'detail': {k: v for k, v in res}}}
+
+
 def only(configs):
     def deco(fn):
         fn.configs = configs
@@ -298,10 +340,8 @@ def main(argv):
         for i in cx.insts:
             all_insts.append((cfg, i))
     extra = {}
-    if tier == 'thorough' and hasattr(mod, 'thorough_extra') and not a.replay:
-        extra = mod.thorough_extra(repo) or {}
-        for i in extra.pop('insts', []):
-            all_insts.append(('thorough', i))
+    if tier == 'thorough' and not a.replay:
+        extra = self_test(prop, repo)
     known, fixed = load_known()
     # de-duplicate violations across configs by key
     viol = {}
